@@ -23,7 +23,7 @@ FUNCTIONS = ["pedal.source.sections._calculate_section_number/separate_into_sect
 BOUNDS = {"quick": {"walk3": "3 parts, each <= 1 char of any unicode; independent/cumulative x 0..3 next_section calls; finish by stop or resolve",
                     "walk3_err": "3 parts from an 8-text menu, error at local line 1..2"},
           "thorough": {"walk3": "parts <= 2 chars", "walk5": "5 parts (two markers), <= 2/2/1/1/1 chars, 0..4 steps", "walk3_err": "all 8 mode x step partitions"}}
-OUTSIDE = ["TIFA and sandbox locations inside a section (need a real parse / real frames; the property text notes runtime locations are section-relative today)",
+OUTSIDE = ["TIFA and sandbox locations beyond the concrete file menu of C17.tools_in_sections",
            "custom patterns with partial groups (re.split is then not lossless by Python's own contract)", "re.split itself (C code, stubbed by its contract)",
            "set_source(..., independent=...) argument forwarding"]
 ASSUMPTIONS = ["re.split stub: odd-length list of arbitrary strings whose concatenation is the input", "parser stub of C12 for the error step",
@@ -92,6 +92,7 @@ def obligations(tier):
     eparts = ["1,1", "0,1", "1,0"] if tier == "quick" else ["%d,%d" % (i, s) for i in (0, 1) for s in range(3)]
     for part in eparts:
         obs.append(Ob("C17.walk3_err", F, "walk3_err", 400, part=part, what=we))
+    obs.append(Ob("C17.tools_in_sections", F, "tools_in_sections", 200, what="real verify / tifa_analysis / sandbox run inside real sections of concrete files (menu enumerated by the solver, bodies untraced): every reported line (syntax, TIFA issue, runtime location and traceback text) is the statement's line in the original file; both modes"))
     obs.append(Ob("C17.walk_reach", F, "walk_reach", 60, expect="refute", what="twin: a section with line offset 2 is reached"))
     obs.append(Ob("C17.pattern_shape", F, "pattern_shape", 30, what="DEFAULT_SECTION_PATTERN = ^( one group )$ on the parsed pattern"))
     if tier == "thorough":
